@@ -40,6 +40,7 @@ func WorkerMain(t *testing.T) {
 	enc := json.NewEncoder(bw)
 	agg := NewAgg(w.Name)
 	failingKept := 0
+	known := loadKnown(os.Getenv("VERIF_ROOT"))
 	for i := 0; ; i++ {
 		if maxRuns > 0 && i >= maxRuns {
 			break
@@ -52,7 +53,13 @@ func WorkerMain(t *testing.T) {
 		keepCase := len(agg.Samples) < 2
 		r := RunOne(t, w, RunOpts{Seed: seed, Tier: tier, KeepCase: keepCase})
 		agg.Add(r, keepHash)
-		if _, bad := r.Failing(); bad && failingKept < 40 {
+		if v, bad := r.FailingUnknown(known, w.Property); bad && v.Rule == "" {
+			// every violation of this run is a listed known finding
+			for _, kv := range r.Violations {
+				agg.Known[kv.Rule+" "+kv.Feature]++
+			}
+			agg.KnownRuns++
+		} else if bad && failingKept < 40 {
 			failingKept++
 			// re-run with explicit tapes to attach case + trace to the report
 			r2 := RunOne(t, w, RunOpts{Seed: seed, Tier: tier, GenVals: r.GenVals, SchedVals: r.SchedVals, Explicit: true, KeepCase: true, KeepTrace: true})
@@ -142,8 +149,7 @@ func ShrinkMain(t *testing.T) {
 	fails := func(g, s []uint32) bool {
 		tries++
 		r := RunOne(t, w, RunOpts{Seed: rf.Seed, Tier: rf.Tier, GenVals: g, SchedVals: s, Explicit: true})
-		v, bad := r.Failing()
-		return bad && v.Rule == rf.Rule
+		return r.HasRule(rf.Rule)
 	}
 	g, s := rf.GenVals, rf.SchedVals
 	if !fails(g, s) {
@@ -168,7 +174,7 @@ func ShrinkMain(t *testing.T) {
 		}
 	}
 	r := RunOne(t, w, RunOpts{Seed: rf.Seed, Tier: rf.Tier, GenVals: g, SchedVals: s, Explicit: true, KeepCase: true, KeepTrace: true})
-	v, _ := r.Failing()
+	v := r.ViolationOf(rf.Rule)
 	rf.ShrunkFrom = fmt.Sprintf("%d tape values -> %d in %d candidate runs", before, len(trimZeros(g))+len(trimZeros(s)), tries)
 	rf.GenVals, rf.SchedVals = trimZeros(g), trimZeros(s)
 	rf.Case, rf.Trace, rf.TraceHash, rf.Detail, rf.Feature, rf.Notes = r.Case, r.Trace, r.TraceHash, v.Detail, v.Feature, r.Notes
